@@ -8,7 +8,7 @@ CONSTANTS
   Outcomes = {"ok", "err", "panic"}
   MaxYield = 50
   EnvOps <- TrEnvOps
-  KillCarriesState = TRUE
+  KillCarriesState = FALSE
   Once = FALSE
   Local = {"L"}
   MonPairs <- TrMonPairs
